@@ -3,10 +3,12 @@
 package litx
 
 import (
+	"bytes"
 	"fmt"
 	"go/scanner"
 	"go/token"
 	"go/types"
+	"hash/fnv"
 	"strings"
 
 	"verif/internal/recipe"
@@ -24,9 +26,21 @@ func RenderStmt(n *recipe.Node, b *recipe.Builder) (string, error) {
 	f := b.File(fr)
 	// (File.Render, and for a sample of the outputs the File's other entry points: GoString, Save over a file
 	// that resembles the output, ...)
-	out, err := recipe.RenderFile(f)
-	if err != nil {
+	buf := &bytes.Buffer{}
+	if err := f.Render(buf); err != nil {
 		return "", err
+	}
+	out := buf.Bytes()
+	h := fnv.New32a()
+	h.Write(out)
+	if h.Sum32()%4 == 1 {
+		again, err := recipe.RenderFile(f)
+		if err != nil {
+			return "", err
+		}
+		if !bytes.Equal(again, out) {
+			return "", fmt.Errorf("entry points disagree: File.Render wrote\n%s\nand, called again,\n%s", out, again)
+		}
 	}
 	s := string(out)
 	if !strings.HasPrefix(s, head) {
